@@ -161,7 +161,8 @@ Print Assumptions C20_nonvacuous.
     re-translated from the SOURCE on every run into PrimFloat terms (Gen/TrF.v, harness/vt/pytr.py; `len(samples)`
     is a parameter), equals the hand-written model, error cases included ([None] = the Python code raises). *)
 Theorem C20_source_crop_bounds : forall rate b t,
-  NS.Proofs.TrEquivF20.opt_of_res (crop_bounds rate b t) = NS.Gen.TrF.trf_crop_bounds rate b t.
+  NS.Proofs.TrEquivF20.slice_of_bounds (NS.Proofs.TrEquivF20.opt_of_res (crop_bounds rate b t)) =
+  NS.Gen.TrF.trf_crop_slice rate b t.
 Proof. exact NS.Proofs.TrEquivF20.trf_crop_bounds_eq. Qed.
 Print Assumptions C20_source_crop_bounds.
 
